@@ -412,6 +412,14 @@ class Gen:
             vals = uniq
         base = {"Enum": "enum.Enum", "IntEnum": "enum.IntEnum", "StrMixin": "str, enum.Enum", "IntMixin": "int, enum.Enum",
                 "StrEnum": "enum.StrEnum"}[flavour]
+        if flavour in ("Enum", "StrMixin", "StrEnum") and len(vals) >= 2 and rng.random() < 0.3:
+            # string values that are the NAMES of other members (a state machine's "next state"), and Enum attribute names
+            k = rng.randrange(1, len(vals) + 1)
+            names_as_values = [f"m{(i + 1) % len(vals)}" for i in range(len(vals))]
+            for i in rng.sample(range(len(vals)), k):
+                cand = rng.choice([names_as_values[i], names_as_values[i], "name", "value"])
+                if not any(cand == v for v in vals):
+                    vals[i] = cand
         body = "\n".join(f"    m{i} = {v!r}" for i, v in enumerate(vals))
         self.prog.emit(f"class {name}({base}):\n{body}\n")
         return self.prog.spec("enum", name, flavour=flavour, values=vals, name=name)
